@@ -268,7 +268,10 @@ class World:
             adj = {}
             for key, vals in op[2]:
                 vs_ = [g(v, V) for v in vals]
-                adj[g(key, V)] = tuple(vs_) if len(vs_) % 2 else vs_
+                # a row may be any iterable: list, tuple, and one-shot ones (iterator, generator, map) that can be walked ONCE
+                m_ = (len(vs_) + len(adj)) % 5
+                adj[g(key, V)] = (vs_ if m_ == 0 else tuple(vs_) if m_ == 1 else iter(list(vs_)) if m_ == 2
+                                  else (x for x in list(vs_)) if m_ == 3 else map(lambda x: x, list(vs_)))
             return ("id", adjlist.load_adj_dict(adj, KIND_CLS[op[1]]))
         if t == "LAM":
             side = [g(v, V) for v in op[2]]
